@@ -1,0 +1,99 @@
+//go:build verif
+
+package edwards25519
+
+// Exports of internals for the runtime monitors under /verif (build tag verif).
+// Nothing here is compiled into a normal build.
+
+// VerifScMulAdd computes s = a*b + c mod l on arbitrary 256-bit inputs.
+func VerifScMulAdd(a, b, c [32]byte) (s [32]byte) { scMulAdd(&s, &a, &b, &c); return }
+
+// VerifScAdd computes s = a + c mod l.
+func VerifScAdd(a, c [32]byte) (s [32]byte) { scAdd(&s, &a, &c); return }
+
+// VerifScSub computes s = a - c mod l.
+func VerifScSub(a, c [32]byte) (s [32]byte) { scSub(&s, &a, &c); return }
+
+// VerifScMul computes s = a*b mod l.
+func VerifScMul(a, b [32]byte) (s [32]byte) { scMul(&s, &a, &b); return }
+
+// VerifScReduce reduces a 512-bit little-endian integer mod l.
+func VerifScReduce(in [64]byte) (out [32]byte) { scReduce(&out, &in); return }
+
+// VerifFeMul multiplies two field elements given as 32-byte little-endian encodings.
+func VerifFeMul(a, b [32]byte) (out [32]byte) {
+	var x, y, z fieldElement
+	feFromBytes(&x, a[:])
+	feFromBytes(&y, b[:])
+	feMul(&z, &x, &y)
+	feToBytes(&out, &z)
+	return
+}
+
+// VerifFeSquare squares a field element.
+func VerifFeSquare(a [32]byte) (out [32]byte) {
+	var x, z fieldElement
+	feFromBytes(&x, a[:])
+	feSquare(&z, &x)
+	feToBytes(&out, &z)
+	return
+}
+
+// VerifFeInvert inverts a field element (0 maps to 0).
+func VerifFeInvert(a [32]byte) (out [32]byte) {
+	var x, z fieldElement
+	feFromBytes(&x, a[:])
+	feInvert(&z, &x)
+	feToBytes(&out, &z)
+	return
+}
+
+// VerifFeAddSubNeg returns a+b, a-b, -a.
+func VerifFeAddSubNeg(a, b [32]byte) (sum, diff, neg [32]byte) {
+	var x, y, z fieldElement
+	feFromBytes(&x, a[:])
+	feFromBytes(&y, b[:])
+	feAdd(&z, &x, &y)
+	feToBytes(&sum, &z)
+	feSub(&z, &x, &y)
+	feToBytes(&diff, &z)
+	feNeg(&z, &x)
+	feToBytes(&neg, &z)
+	return
+}
+
+// VerifFeRoundTrip decodes and re-encodes (canonical reduction).
+func VerifFeRoundTrip(a [32]byte) (out [32]byte) {
+	var x fieldElement
+	feFromBytes(&x, a[:])
+	feToBytes(&out, &x)
+	return
+}
+
+// VerifScalarMult runs the three scalar multiplication routines on the point
+// with encoding pt (must decode) and scalar a (a[31] <= 127): constant-time
+// variable-base, variable-time variable-base, and (if pt is nil) fixed-base.
+func VerifScalarMult(a [32]byte, pt []byte) (ct, vt, base [32]byte, ok bool) {
+	var A, h extendedGroupElement
+	if pt != nil {
+		if !A.FromBytes(pt) {
+			return
+		}
+		geScalarMult(&h, &a, &A)
+		h.ToBytes(&ct)
+		geScalarMultVartime(&h, &a, &A)
+		h.ToBytes(&vt)
+		return ct, vt, base, true
+	}
+	geScalarMultBase(&h, &a)
+	h.ToBytes(&base)
+	A = baseext
+	geScalarMult(&h, &a, &A)
+	h.ToBytes(&ct)
+	geScalarMultVartime(&h, &a, &A)
+	h.ToBytes(&vt)
+	return ct, vt, base, true
+}
+
+// VerifSlide exposes the signed sliding-window recoding.
+func VerifSlide(a [32]byte) (r [256]int8) { slide(&r, &a); return }
